@@ -306,7 +306,7 @@ def fresh_pair():
     return ns1, ns2
 
 
-def observe(ns):
+def observe(ns, outermost=False):
     import stackscope
     box = {}
 
@@ -316,7 +316,10 @@ def observe(ns):
             fr = fr.f_back
         with warnings.catch_warnings():
             warnings.simplefilter("ignore")
-            box["st"] = stackscope.extract_since(fr)
+            if outermost:
+                box["st"] = stackscope.extract_outermost(stackscope.StackSlice(outer=fr))
+            else:
+                box["st"] = stackscope.extract_since(fr)
         return 1
     box["probe"] = probe
     ns["g"](box)
@@ -406,6 +409,19 @@ def check_customize(case):
             problems.append("unexpected frames %r" % (names,))
     if st.error is not None:
         problems.append("error %r" % (st.error,))
+    # the options also take effect on the frame handed out by extract_outermost()
+    del calls[:]
+    try:
+        fo = observe(ns1, outermost=True)
+    except Exception as ex:
+        problems.append("extract_outermost raised %r" % (ex,))
+    else:
+        if fo.pyframe.f_code is not ns1["g"].__code__ or fo.hide != case["hide"] or fo.hide_line != case["hide_line"]:
+            problems.append("extract_outermost: hide=%r hide_line=%r requested, frame %s has hide=%r hide_line=%r" % (
+                case["hide"], case["hide_line"], fo.funcname, fo.hide, fo.hide_line))
+        if case["elab"] != "none" and len(calls) != 1:
+            problems.append("extract_outermost: elaborate callback called %d times" % len(calls))
+    del calls[:]
     # the equal-but-distinct twin must be unaffected
     if case["form"] != "nested":
         st2 = observe(ns2)
@@ -413,7 +429,7 @@ def check_customize(case):
         if st2.frames[0].hide or st2.frames[0].hide_line or n2[:3] != ["g", "h", "probe"]:
             problems.append("frames of an equal-but-distinct code object were affected: hide=%r hide_line=%r frames=%r" % (
                 st2.frames[0].hide, st2.frames[0].hide_line, n2))
-        if len(calls) > 1:
+        if len(calls) > 0:
             problems.append("elaborate callback ran for the twin code object")
     repl.close()
     return problems
